@@ -59,10 +59,28 @@ def seeded():
     return '%d confirmed changes:\n\n' % n + '\n'.join(rows)
 
 
+def missed():
+    out, n, tot = [], 0, 0
+    for d in sorted(glob.glob(os.path.join(ROOT, 'seeded', '*'))):
+        mp = os.path.join(d, 'meta.json')
+        if not os.path.exists(mp):
+            continue
+        m = json.load(open(mp))
+        tot += 1
+        fv = m.get('first_version', 'caught')
+        if fv.startswith('missed'):
+            n += 1
+            out.append('* `%s` — %s; now %s' % (os.path.basename(d), fv.replace('missed; strengthened: ', 'strengthened with '),
+                                             'caught by ' + ', '.join(m['caught_by']) if m.get('caught_by') else 'STILL MISSED'))
+    return ('%d of the %d changes were missed by the first version of a check and led to stronger generators/oracles '
+            '(the property theorems did not change; what grew is the part of the input space on which model and code are compared):\n\n' % (n, tot)
+            + '\n'.join(out))
+
+
 def main():
     p = os.path.join(ROOT, 'DESIGN.md')
     s = open(p).read()
-    for name, fn in (('theorems', theorems), ('defects', defects), ('seeded', seeded)):
+    for name, fn in (('theorems', theorems), ('defects', defects), ('seeded', seeded), ('missed', missed)):
         pat = re.compile(r'(<!-- gen:%s -->\n).*?(\n<!-- /gen:%s -->)' % (name, name), re.S)
         if not pat.search(s):
             sys.exit('marker gen:%s missing in DESIGN.md' % name)
